@@ -829,6 +829,16 @@ class Simulation:
             if kwargs.pop('add_noise', True):
                 self.survey.add_noise(**kwargs)
 
+            # New observed data: reset everything that depends on them.
+            self._misfit = None
+            self._gradient = None
+            for key in ['residual', 'weights']:
+                if key in self.data.keys():
+                    del self.data[key]
+            for name in ['_dict_bfield', '_dict_bfield_info']:
+                if hasattr(self, name):
+                    delattr(self, name)
+
         elif source is None and frequency is None:
             self._computed = True
 
